@@ -219,6 +219,13 @@ class IndexClient(PathClient):
 
     # facts about list lengths from assignments and mutators
     def on_store(self, it, s, target, value, stmt):
+        raw = getattr(stmt, 'value', None)
+        if isinstance(target, ast.Name) and isinstance(raw, ast.BoolOp) and isinstance(raw.op, ast.Or) \
+                and isinstance(raw.values[-1], (ast.List, ast.Tuple)) and raw.values[-1].elts and isinstance(stmt, ast.Assign) and len(stmt.targets) == 1:
+            # X = A or [c, ..]: A when it is truthy (so non-empty), else the non-empty display
+            X = target.id
+            s = s.drop_if(lambda k, v: k[0] == 'len' and (k[1] == X or k[1].startswith(X + '.') or k[1].startswith(X + '[')))
+            return s.set(('len', X), 1)
         if isinstance(target, ast.Name) and value is not None and not isinstance(value, tuple):
             X = target.id
             s = s.drop_if(lambda k, v: k[0] == 'len' and (k[1] == X or k[1].startswith(X + '.') or k[1].startswith(X + '[')))
